@@ -51,7 +51,7 @@ Lemma revert_fields : forall d hb ws, Forall window_only ws ->
   let d' := apply_batch d (revert_batch hb ws) in
   d_height d' = (if b_num hb =? 0 then None else Some (b_num hb - 1))
   /\ (forall f, d_fam d' f = filter (fun b => negb ((b_num b =? b_num hb) && (b_id b =? b_id hb))) (d_fam d f))
-  /\ d_state d' = (if b_num hb =? 0 then None else Some (b_parent hb)) /\ d_snap d' = d_snap d
+  /\ d_state d' = (if b_num hb =? 0 then None else Some (b_parent hb)) /\ d_snap d' = None
   /\ d_windows d' = d_windows (apply_batch d ws).
 Proof.
   intros d hb ws Hw d'. subst d'. unfold revert_batch.
@@ -191,7 +191,7 @@ Proof.
         rewrite (align_end W a h HW M X) in Hq. rewrite N.eqb_refl in Hq. discriminate.
       - apply N.eqb_neq in Hb. apply Hb. eapply boundary_arith; eauto. }
     lia. }
-  assert (Hsn' : snap_ok W d' = true). { unfold snap_ok. rewrite D. exact Hsn. }
+  assert (Hsn' : snap_ok W d' = true). { unfold snap_ok. rewrite D. reflexivity. }
   assert (Hkeep : forall f x, In x (d_fam d' f) -> In x (d_fam d f) /\ b_num x < h).
   { intros f x Hx. rewrite B in Hx. apply filter_In in Hx as [Hx Hq]. split; auto.
     destruct (i_ent0 f x Hx) as [L Ag].
